@@ -4,7 +4,7 @@ from .methods import BY_NAME, rel_query
 META = {
     "level": "other",
     "explanation": "Three-run relational queries on the real crypt_<m>_rn over UNINTERPRETED digest/cipher kernels (models/digest_uf.c, models/des_uf.c): run 1 on symbolic (phrase, setting) gives H; run 2 hashes the same phrase with H as the setting; run 3 with H whose digest characters are replaced by arbitrary characters of the method's alphabet. The solver shows out2 == out1 == out3 for every interpretation of the kernels, i.e. the methods canonicalise prefix, options and salt into the output and ignore the hash portion of a setting.",
-    "functions": ["crypt_{descrypt,bigcrypt,bsdicrypt,nt}_rn", "crypt_md5crypt_rn (quick: phrase 2 / tail 9; thorough: a grid of concrete lengths)", "crypt_{sunmd5,sha1crypt}_rn (thorough)"],
+    "functions": ["crypt_{descrypt,bigcrypt,bsdicrypt,nt}_rn", "crypt_md5crypt_rn (quick: phrase 2 / tail 9; thorough: a grid of concrete lengths)", "crypt_sha1crypt_rn (thorough)"],
     "bounds": {"quick": {"phrase": "<= 6 bytes (bigcrypt: 12 to cross the 8-byte segment and the phr>8 dispatch)", "setting tail": "per method up to 24 symbolic bytes: every salt length, terminator and trailing material that fits"},
                "thorough": {"stretching methods": "phrase/tail lengths case-split over (0,1),(2,4),(2,9),(3,12), contents symbolic; stretch loops cut after 2 iterations identically in all runs"}},
     "outside": ["sha256crypt, sha512crypt (three UF runs exhaust 12 GB even at phrase <= 4), yescrypt, scrypt, gost-yescrypt, bcrypt", "phrases longer than the bound (the phrase is passed through unchanged by every parser)", "KNOWN gap noted by a mutation author, not yet a recorded finding: scrypt ($7$) settings of 296..339 characters hash to a string that is then too long to be accepted as a setting"],
@@ -22,8 +22,8 @@ def queries(tier, seed, build):
           rel_query(BY_NAME["nt"], "c01-nt", "REL_RT", max_p=6)]
     # stretching methods: lengths are case-split (concrete per query), contents symbolic
     grid = [("md5crypt", 2, 9)] if tier == "quick" else \
-        [(n, pl, sl) for n in ("md5crypt", "sunmd5", "sunmd5-comma", "sha1crypt") for pl, sl in ((0, 1), (2, 4), (2, 9), (3, 12))
-         if not (n == "sha1crypt" and sl < 3)]      # a sha1crypt tail needs at least "N$s"
+        [(n, pl, sl) for n in ("md5crypt", "sha1crypt") for pl, sl in ((0, 1), (2, 4), (2, 9), (3, 12))
+         if not (n == "sha1crypt" and (sl < 3 or sl > 9))]      # a sha1crypt tail needs at least "N$s"
     for n, pl, sl in grid:
         for part in (("RT_SELF_ONLY",) if tier == "quick" else ("RT_SELF_ONLY", "RT_ALT_ONLY")):
             qs.append(rel_query(BY_NAME[n], "c01-%s-p%d-s%d-%s" % (n, pl, sl, part[3:7].lower()), "REL_RT", max_p=max(pl, 1), max_s=max(sl, 1),
